@@ -364,7 +364,7 @@ func (q *qgen) table(d int) string {
 	case 4:
 		s = q.pick("https://example.com/a.csv", "file:./t.csv", "file:///tmp/x.json", "http://h/p?q=1&r=2")
 	case 5:
-		s = q.pick("csv", "json", "data")+"::" + q.osp() + "(" + q.pick("`t.csv`", "'x', `t`", "") + ")"
+		s = q.pick("csv", "json", "data") + "::" + q.osp() + "(" + q.pick("`t.csv`", "'x', `t`", "") + ")"
 	case 6:
 		s = q.kw("csv_inline") + "(" + q.strLit() + ")"
 	default:
